@@ -141,7 +141,7 @@ def gen_div_pair(rng, fam):
 
 def gen_cases(rng, tier):
     cases = []
-    n = 1 if tier == "quick" else 8
+    n = 1 if tier == "quick" else 6
     for fam in ("I", "Q"):
         for _ in range(140 * n):
             a, b = gen_poly(rng, fam, big=True), gen_poly(rng, fam, big=True)
@@ -232,7 +232,7 @@ def small_universe():
     cases = []
     for a in polys:
         for b in polys:
-            for op in ("add", "sub", "kmul", "div"):
+            for op in ("sub", "kmul", "div"):
                 cases.append("I %s %s %s" % (op, fpoly(a), fpoly(b)))
     return cases
 
